@@ -161,6 +161,8 @@ func vfC03Alphabet(thorough bool) []vfOp {
 	for _, p := range []string{"/b", "/a/b", "/a/a/a", "/c"} {
 		a = append(a, vfOp{Op: "mkds", Path: p, Type: "i32", Dims: []uint64{2}})
 	}
+	// children under a name that may be taken by a dataset (or by nothing)
+	a = append(a, vfOp{Op: "mkgroup", Path: "/b/x"}, vfOp{Op: "mkds", Path: "/b/y", Type: "i32", Dims: []uint64{2}})
 	for _, l := range []string{"/h", "/a/h"} {
 		for _, t := range []string{"/a", "/a/a", "/b", "/nope"} {
 			a = append(a, vfOp{Op: "hardlink", Path: l, Target: t})
@@ -314,9 +316,23 @@ func vfC03Problems(ex *vfExec) (problems []string, undef bool) {
 		}
 		got[strings.TrimSuffix(p, "/")] = ob.Kind
 	}
+	// a path below a missing path is missing by implication: report the topmost one only
+	missingAbove := func(p string) bool {
+		for q := range exp {
+			if q != p && strings.HasPrefix(p, q+"/") {
+				if _, ok := got[q]; !ok {
+					return true
+				}
+			}
+		}
+		return false
+	}
 	for p, k := range exp {
 		g, ok := got[p]
 		node := m.nodes[p]
+		if !ok && missingAbove(p) {
+			continue
+		}
 		switch {
 		case k == "softlink" || k == "extlink":
 			if !ok {
